@@ -233,7 +233,7 @@ def generate(rng, tier):
     if not quick:
         for j in range(24):
             w = rand_work(rng, 1 + j % 3, 6, 1 + j % 3, pfail=0.1, after_save=0.0)
-            heavy.append(mk(w, dict(kind="threads", runs=3, delay=[0.0, 0.003, 0.03][j % 3], switch=1e-5), "real-threads"))
+            heavy.append(mk(w, dict(kind="threads", runs=3, delay=[0.0, 0.003, 0.05][j % 3], switch=1e-5), "real-threads"))
     # spread the heavy cases evenly (the driver is sharded over contiguous chunks)
     cases = [dict(nrec=0, work=[], sched=dict(kind="gate"), label="gate")]
     step = max(1, len(light) // (len(heavy) + 1))
@@ -368,11 +368,8 @@ def run_failures(case, r):
         add("applied-unaccepted-op", "operations reached the wrapped cassette whose request did not return normally: %s" % extra[:6])
     if r.get("phantom"):
         add("phantom-op", "the wrapped cassette received calls nobody requested: %s" % r["phantom"][:4])
-    for p in range(len(work)):
-        idx = [i for q, i in app if q == p]
-        if idx != sorted(idx):
-            add("reordered-within-producer", "producer %d requested in order %s but the wrapped cassette saw %s" % (p, sorted(idx), idx))
-    # real-time order: a call that returned before another one began must be applied first
+    # order checks.  Identical requests (saves of one recording by several producers) cannot be told apart at the
+    # wrapped cassette: the order is wrong only if no attribution of those calls to the requests satisfies the checks.
     begin, end = {}, {}
     if "stamps" in r:
         for p, i, b, e in r["stamps"]:
@@ -383,13 +380,41 @@ def run_failures(case, r):
                 begin[(ev[1], ev[2])] = t
             elif ev[0] == "E":
                 end[(ev[1], ev[2])] = t
-    pos = {}
-    for k, x in enumerate(app):
-        pos.setdefault(x, k)
-    bad = [(a, b) for a in pos for b in pos
-           if a in end and b in begin and end[a] < begin[b] and pos[b] < pos[a]]
-    if bad:
-        add("reordered-across-producers", "request %s returned before %s began, but was applied after it" % bad[0])
+
+    def order_failures(lab):
+        out = []
+        for p in range(len(work)):
+            idx = [i for q, i in lab if q == p]
+            if idx != sorted(idx):
+                out.append(("reordered-within-producer",
+                            "producer %d requested in order %s but the wrapped cassette saw %s" % (p, sorted(idx), idx)))
+        pos = {}
+        for k, x in enumerate(lab):
+            pos.setdefault(x, k)
+        # real-time order: a call that returned before another one began must be applied first
+        bad = [(a, b) for a in pos for b in pos if a in end and b in begin and end[a] < begin[b] and pos[b] < pos[a]]
+        if bad:
+            out.append(("reordered-across-producers", "request %s returned before %s began, but was applied after it" % bad[0]))
+        return out
+    classes = {}
+    for k, (p, i) in enumerate(app):
+        if 0 <= p < len(work) and i < len(work[p]) and work[p][i]["k"] == "save":
+            classes.setdefault(work[p][i]["rec"], []).append(k)
+    classes = [ks for ks in classes.values() if len(set(app[k] for k in ks)) > 1]
+    first = None
+    for n, perms in enumerate(itertools.product(*[list(itertools.permutations(ks)) for ks in classes])):
+        lab = list(app)
+        for ks, pk in zip(classes, perms):
+            for dst, src in zip(ks, pk):
+                lab[dst] = app[src]
+        of = order_failures(lab)
+        if first is None:
+            first = of
+        if not of or n > 300:
+            first = of if not of else first
+            break
+    for sig, msg in first or []:
+        add(sig, msg)
     # contents against the synchronous twin
     tw = r["twin"]
     late = r.get("twin_late")
